@@ -25,6 +25,8 @@ NO256 = ("No", 256, None)
 LR = ("Lr", None, None)
 MD256 = ("Md", 256, None)
 NO = ("No", None, None)
+CRAD1 = ("C", None, 1)  # singlet flag: a radical value of its own (written rad=1), not "no radical"
+CRAD3 = ("C", None, 3)
 SIGMA6 = (C, H, D, C13, CRAD, O)
 SIGMA4 = (C, H, C13, CRAD)
 SIGMA3 = (C, C13, CRAD)
